@@ -7,7 +7,7 @@ from props import symgen as G
 class C09(PropBase):
     pid = "C09"
     coq_dirs = ["Base", "Gen", "C08", "C11", "C09"]
-    translators = ["symfile_loop.py"]
+    translators = ["symfile_loop.py", "c09_circular_mem.py"]
     bins = ["c09"]
     impl_timeout = 600
     rule = ("case = input bytes (run-length encoded) + reader schedule; inputs: grammar-generated files with every record kind, "
